@@ -21,7 +21,22 @@ import (
 	"github.com/B1NARY-GR0UP/originium/types"
 )
 
+// Merge merges sorted lists into one sorted list, the entry of the later list wins for
+// duplicated keys, deleted entries (tombstones) are dropped.
 func Merge(lists ...[]types.Entry) []types.Entry {
+	var merged []types.Entry
+	for _, entry := range MergeAll(lists...) {
+		if entry.Tombstone {
+			continue
+		}
+		merged = append(merged, entry)
+	}
+	return merged
+}
+
+// MergeAll is Merge but keeps the tombstones: a tombstone is a version of its key and
+// must survive as long as older versions of the key may exist elsewhere.
+func MergeAll(lists ...[]types.Entry) []types.Entry {
 	h := &Heap{}
 	heap.Init(h)
 
@@ -55,9 +70,6 @@ func Merge(lists ...[]types.Entry) []types.Entry {
 	var merged []types.Entry
 
 	for _, entry := range latest {
-		if entry.Tombstone {
-			continue
-		}
 		merged = append(merged, entry)
 	}
 
